@@ -56,8 +56,9 @@ impl OrdMap {
     pub fn build(base: &Sigs, cur: &Sigs) -> Self {
         let mut map = BTreeMap::new();
         for (kind, c) in cur {
-            let empty = vec![];
-            let b = base.get(kind).unwrap_or(&empty);
+            // a kind the baseline did not record (older baseline, or no node of that kind then): identity, so that
+            // adding a signature kind to vx does not invalidate baselines
+            let Some(b) = base.get(kind) else { continue };
             let a = align(b, c);
             let mut v: Vec<Option<usize>> = vec![None];
             v.extend(a.into_iter().map(|x| x.map(|i| i + 1)));
@@ -68,7 +69,8 @@ impl OrdMap {
     /// baseline ordinal of the `n`-th (1-based) current node of `kind`; inserted nodes get an ordinal no spec can name
     pub fn get(&self, kind: &str, n: usize) -> usize {
         if self.identity { return n; }
-        match self.map.get(kind).and_then(|v| v.get(n)).copied().flatten() {
+        let Some(v) = self.map.get(kind) else { return n };
+        match v.get(n).copied().flatten() {
             Some(b) => b,
             None => 100_000 + n,
         }
